@@ -565,12 +565,12 @@ PROPS = {
 }
 
 # Tie by translation (Kanal/TieCode.lean): which "generated code = fine-grained model" theorems each property rests on
-_T_BASE = ["translation_complete", "translated_functions"]
+_T_BASE = ["translation_complete", "translated_functions", "new_eq", "constructor_calls"]
 _T_INTERNAL = ["next_send_eq", "next_recv_eq", "push_send_eq", "push_recv_eq", "terminate_signals_eq", "cancel_loop", "cancel_send_eq",
                "cancel_recv_eq", "exists_loop", "send_exists_eq", "recv_exists_eq"]
 _T_SEND = ["try_send", "try_send_option", "try_send_realtime", "try_send_option_realtime", "send", "send_timeout", "send_option_timeout", "poll_send"]
 _T_RECV = ["try_recv", "try_recv_realtime", "recv", "recv_timeout", "poll_recv", "drain_queue_loop", "drain_senders_loop", "drain_into"]
-_T_FUT = ["drop_send_fut", "drop_recv_fut", "poll_send", "poll_recv"]
+_T_FUT = ["drop_send_fut", "drop_recv_fut", "poll_send", "poll_recv", "poll_next"]
 _T_DROPS = ["drop_sender", "drop_async_sender", "drop_receiver", "drop_async_receiver"]
 _T_CLONES = ["clone_sender", "clone_async_sender", "sender_clone_async", "async_sender_clone_sync", "clone_receiver", "clone_async_receiver",
              "receiver_clone_async", "async_receiver_clone_sync"]
@@ -615,7 +615,8 @@ EXTRA_FILES = {
     "C03": ["Kanal/Sections.lean", "Kanal/SpecSections.lean"],
     # translated signal.rs / mutex.rs / spin_cond conform to SigM / MutexM (TieProto), and conformance is adequate (ProtoSim)
     "C07": ["Kanal/TieProto.lean", "Kanal/ProtoSim.lean"],
-    "C17": ["Kanal/TieProto.lean", "Kanal/ProtoSimMutex.lean"],   # interleaving machine: the logical state moves by whole critical sections = Chan functions
+    "C17": ["Kanal/TieProto.lean", "Kanal/ProtoSimMutex.lean"],
+    "C13": ["Kanal/TieProto.lean"],            # wait_timeout / is_terminated   # interleaving machine: the logical state moves by whole critical sections = Chan functions
 }
 for _pid, _files in EXTRA_FILES.items():
     PROPS[_pid]["props_files"] = list(PROPS[_pid]["props_files"]) + _files
